@@ -20,6 +20,10 @@ TRUSTED = [
     'edit_hamiltonian_for_spin / remove_indices steps and the end-to-end sector spectrum is checked against the Spec',
 ]
 ASSUMPTIONS = [
+    'argument types (hardening): qubits of project_onto_sector is a list (the source calls qubits.index), sectors a list or '
+    'ndarray of int / bool / float 0-1 values; stabilizers a list, tuple, object ndarray or QubitOperator; position lists a '
+    'list, tuple or ndarray; coefficients int / float / complex and their numpy subclasses float64 / complex128; '
+    'symmetry_conserving_bravyi_kitaev takes Python ints only; rotation angles float / numpy.float64',
     'stabilizers are single Pauli strings with coefficient +1 or -1, pairwise commuting and independent; every Hamiltonian '
     'term commutes with every stabilizer; manual fixed positions lie in the support of the stabilizer they are used for '
     '(otherwise the code reuses a stale Pauli: compared with the Model only)',
@@ -121,6 +125,19 @@ def pmul(p, q):
     return r
 
 
+def band_coeff(rng, complex_p=0.0):
+    """O(1) dyadic coefficient, or (B) one of magnitude 1e-7 .. 1e-4 (a decade above the 1e-8 pruning threshold)"""
+    if rng.random() < 0.25:
+        v = rng.choice([1, -1, 3, -3]) * 2.0 ** (-rng.choice([14, 17, 20, 23]))
+        if rng.random() < complex_p:
+            return complex(0, v) if rng.random() < 0.5 else complex(v, -v)
+        return v
+    c = dyadic(rng, max_num=6, max_pow=2, complex_p=complex_p)
+    if isinstance(c, complex) and rng.random() < 0.3:
+        c = complex(0, c.imag if c.imag else 1.0)          # (A) purely imaginary
+    return c
+
+
 def rand_commuting_hamiltonian(of, rng, n, stabs):
     H = of.QubitOperator()
     cands = []
@@ -134,9 +151,10 @@ def rand_commuting_hamiltonian(of, rng, n, stabs):
             if rng.random() < 0.5:
                 q = pmul(p, rng.choice(stabs))
                 cands.append(q)
+    cplx = 0.5 if rng.random() < 0.25 else 0.0      # (A) non-Hermitian Hamiltonians with complex coefficients
     for p in cands:
-        c = dyadic(rng, max_num=6, max_pow=2, complex_p=0.0)
-        H += of.QubitOperator(pauli_term(p), float(c))
+        c = band_coeff(rng, cplx)
+        H += of.QubitOperator(pauli_term(p), c if cplx else float(c))
     return H
 
 
@@ -193,6 +211,122 @@ def same_result(r, m, keys=('op',)):
         elif r['ok'][k] != m['ok'][k]:
             return False
     return True
+
+
+
+# ------------------------------------------------------------------ (T) argument types / containers
+
+def vary_ints(rng, l, kinds=('int', 'np64', 'np32'), containers=('list',), bool_ok=False, float_ok=False):
+    """the same integer values in another element type / container"""
+    kinds = list(kinds)
+    if bool_ok and all(x in (0, 1) for x in l):
+        kinds += ['bool', 'npbool', 'bool', 'npbool']
+    if float_ok:
+        kinds += ['float']
+    k = rng.choice(kinds)
+    conv = {'int': int, 'np64': numpy.int64, 'np32': numpy.int32, 'bool': bool, 'npbool': numpy.bool_,
+            'float': float}[k]
+    vals = [conv(x) for x in l]
+    c = rng.choice(list(containers))
+    if c == 'list':
+        return vals, k + '/list'
+    if c == 'tuple':
+        return tuple(vals), k + '/tuple'
+    if c == 'range' and list(l) == list(range(l[0], l[0] + len(l))) if l else False:
+        return range(l[0], l[0] + len(l)), 'range'
+    dt = {'int': int, 'np64': numpy.int64, 'np32': numpy.int32, 'bool': bool, 'npbool': bool, 'float': float}[k]
+    return numpy.array(l, dtype=dt), k + '/ndarray'
+
+
+def vary_coeff(rng, c):
+    """the same coefficient as another accepted numeric type (COEFFICIENT_TYPES: int, float, complex and subclasses)"""
+    c = complex(c)
+    opts = [complex(c), numpy.complex128(c)]
+    if c.imag == 0:
+        opts += [float(c.real), numpy.float64(c.real)]
+        if float(c.real).is_integer():
+            opts += [int(c.real)]
+    return rng.choice(opts)
+
+
+def retype_terms(rng, op):
+    """replace the coefficients stored in .terms by equal values of other accepted types"""
+    for k in list(op.terms):
+        op.terms[k] = vary_coeff(rng, op.terms[k])
+    return op
+
+
+def vary_stabilizers(rng, of, stab_ops):
+    r = rng.random()
+    if r < 0.5:
+        return list(stab_ops), 'list'
+    if r < 0.7:
+        return tuple(stab_ops), 'tuple'
+    if r < 0.85:
+        a = numpy.empty(len(stab_ops), dtype=object)
+        for i, s in enumerate(stab_ops):
+            a[i] = s
+        return a, 'ndarray'
+    # a QubitOperator whose terms are the generators (only when they are distinct strings)
+    keys = [list(s.terms)[0] for s in stab_ops if len(s.terms) == 1]
+    if len(keys) == len(stab_ops) and len(set(keys)) == len(keys):
+        tot = of.QubitOperator()
+        for s in stab_ops:
+            tot += s
+        if [list(x.terms)[0] for x in tot] == keys:
+            return tot, 'QubitOperator'
+    return list(stab_ops), 'list'
+
+
+def snap_any(x):
+    if isinstance(x, numpy.ndarray):
+        return ('arr', str(x.dtype), x.tolist() if x.dtype != object else tuple(snap_any(y) for y in x))
+    if hasattr(x, 'terms'):
+        return ('op', tuple(sorted((str(k), from_gq(to_gq(v))) for k, v in x.terms.items())))
+    if isinstance(x, (list, tuple)):
+        return (type(x).__name__,) + tuple(snap_any(y) for y in x)
+    return ('v', repr(x))
+
+
+def mutate_result(r):
+    if isinstance(r, tuple):
+        for y in r:
+            mutate_result(y)
+    elif isinstance(r, list):
+        r.append(99)
+        if len(r) > 1:
+            r[0] = -5
+    elif hasattr(r, 'terms'):
+        for k in list(r.terms):
+            r.terms[k] = r.terms[k] * 3 + 1
+        r.terms[((0, 'Z'),)] = 7.0
+
+
+def twice(st, name, fn, args, case, alias_ok=False):
+    """(S) call fn twice around an in-place modification of everything the first call returned"""
+    s0 = snap_any(args)
+    try:
+        r1 = fn(*args)
+        c1 = snap_any(r1)
+        if snap_any(args) != s0:
+            st.violate('%s modified its arguments' % name, case, {})
+            return None
+        parts = r1 if isinstance(r1, tuple) else (r1,)
+        if not alias_ok and any(a is b for a in parts for b in args if not isinstance(b, (int, float, bool, type(None)))):
+            st.violate('%s returns one of its arguments' % name, case, {})
+        mutate_result(r1)
+        if snap_any(args) != s0:
+            st.violate('modifying the result of %s changed its arguments (aliasing)' % name, case, {})
+            return None
+        r2 = fn(*args)
+        if snap_any(r2) != c1:
+            st.violate('%s: a second call after modifying the first result differs from the first result' % name, case,
+                       {'first': show(c1, 500), 'second': show(snap_any(r2), 500)})
+        st.count('state:' + name)
+        return r2
+    except Exception as e:
+        st.violate('%s: unexpected exception %s: %s' % (name, errname(e), e), case, {})
+        return None
 
 
 # ------------------------------------------------------------------ stream 1: reduction and tapering
@@ -294,13 +428,20 @@ def stream_taper(ctx):
         st.case(case)
         st.count('%s:%s%s%s' % (f, 'manual' if man else 'auto', ':keep-length' if ml else '', ':' + bad if bad else ''))
         st.count('n=%d,k=%d' % (n, len(stab_ops)))
+        import copy as _copy
+        stabs_t, skind = vary_stabilizers(rng, of, [retype_terms(rng, _copy.deepcopy(x)) for x in stab_ops]) \
+            if bad is None else (list(stab_ops), 'list')
+        fixed_t, fkind = (None, 'none') if fixed is None else \
+            vary_ints(rng, fixed, containers=('list', 'tuple', 'ndarray'))
+        Ht = retype_terms(rng, _copy.deepcopy(H))
+        st.count('types:stabilizers=%s,fixed=%s' % (skind, fkind))
+        case['types'] = {'stabilizers': skind, 'fixed_positions': fkind}
         try:
             if f == 'reduce':
-                out, pos = of.reduce_number_of_terms(H, list(stab_ops), maintain_length=ml, output_fixed_positions=True,
-                                                     manual_input=man, fixed_positions=None if fixed is None else list(fixed))
+                out, pos = of.reduce_number_of_terms(Ht, stabs_t, maintain_length=ml, output_fixed_positions=True,
+                                                     manual_input=man, fixed_positions=fixed_t)
             else:
-                out, pos = of.taper_off_qubits(H, list(stab_ops), manual_input=man,
-                                               fixed_positions=None if fixed is None else list(fixed),
+                out, pos = of.taper_off_qubits(Ht, stabs_t, manual_input=man, fixed_positions=fixed_t,
                                                output_tapered_positions=True)
             r = {'ok': {'op': enc_op('qubit', out.terms), 'fixed': [int(x) for x in pos]}}
         except (StabilizerError, TypeError, ValueError, IndexError, UnboundLocalError) as e:
@@ -360,6 +501,18 @@ def stream_taper(ctx):
                 st.violate('joint +1 eigenspace does not have dimension 2^(n-k) (generator error?)', case, {})
                 return
             Hr = B.conj().T @ Hm @ B
+            if numpy.max(numpy.abs(Hm - Hm.conj().T)) > 1e-12:
+                # non-Hermitian H: compare the power traces tr(X^k), k = 1..4 (similarity invariants)
+                st.count('oracle:power-traces')
+                scale = max(1.0, float(numpy.max(numpy.abs(Hm))))
+                X, Y = numpy.eye(Hr.shape[0]), numpy.eye(Tm.shape[0])
+                for kpow in range(1, 5):
+                    X, Y = X @ Hr, Y @ Tm
+                    if abs(numpy.trace(X) - numpy.trace(Y)) > 1e-9 * (scale ** kpow) * Hr.shape[0]:
+                        st.violate('taper_off_qubits: tr(T^%d) differs from the trace on the joint +1 eigenspace' % kpow, case,
+                                   {'sector': complex(numpy.trace(X)), 'tapered': complex(numpy.trace(Y))})
+                        break
+                return
             ea = numpy.linalg.eigvalsh((Hr + Hr.conj().T) / 2)
             eb = numpy.linalg.eigvalsh((Tm + Tm.conj().T) / 2)
             if numpy.max(numpy.abs(Tm - Tm.conj().T)) > 1e-9 or numpy.max(numpy.abs(ea - eb)) > 1e-9:
@@ -387,7 +540,7 @@ def rand_qubit_op(of, rng, n, nterms, complex_p=0.4):
     op = of.QubitOperator()
     for _ in range(nterms):
         p = rand_pauli(rng, n, 0, rng.choice([0.3, 0.6, 0.9]))
-        op += of.QubitOperator(pauli_term(p), dyadic(rng, max_num=6, max_pow=2, complex_p=complex_p))
+        op += of.QubitOperator(pauli_term(p), band_coeff(rng, complex_p))
     return op
 
 
@@ -417,7 +570,15 @@ def stream_proj(ctx):
         op = rand_qubit_op(of, rng, n, rng.randint(0, 6))
         k = rng.randint(0, n)
         qubits = rng.sample(range(n), k)
-        sectors = [rng.randint(0, 1) for _ in qubits]
+        sectors = [rng.choice([0, 1, 1]) for _ in qubits]
+        if k >= 2 and rng.random() < 0.6:
+            # Z on several removed qubits (sign = parity of the sector bits), possibly times kept-qubit Paulis
+            for _ in range(rng.randint(1, 2)):
+                zs = {q: 3 for q in rng.sample(qubits, rng.randint(2, k))}
+                for q in range(n):
+                    if q not in qubits and rng.random() < 0.4:
+                        zs[q] = rng.choice([1, 2, 3])
+                op += of.QubitOperator(pauli_term(zs), dyadic(rng, max_num=6, max_pow=2, complex_p=0.4))
         r = rng.random()
         if r < 0.04:
             sectors = sectors + [0]
@@ -433,8 +594,15 @@ def stream_proj(ctx):
         me = next(ans)
         case = {'f': 'project_onto_sector', 'A': jA, 'qubits': qubits, 'sectors': sectors}
         st.case(case)
+        admissible = len(qubits) == len(sectors) and all(x in (0, 1) for x in sectors)
+        qubits_t, qk = vary_ints(rng, qubits) if admissible else (list(qubits), 'int/list')
+        sectors_t, sk = vary_ints(rng, sectors, containers=('list', 'list', 'ndarray'), bool_ok=True, float_ok=True) \
+            if admissible else (list(sectors), 'int/list')
+        st.count('types:qubits=%s,sectors=%s' % (qk, sk))
+        case['types'] = {'qubits': qk, 'sectors': sk}
+        op0 = snap_any(op)
         try:
-            out = of.transforms.project_onto_sector(op, list(qubits), list(sectors))
+            out = of.transforms.project_onto_sector(op, qubits_t, sectors_t)
             r = {'ok': enc_op('qubit', out.terms)}
         except (ValueError, TypeError) as e:
             r = {'error': errname(e)}
@@ -446,7 +614,9 @@ def stream_proj(ctx):
                 ('ok' in r and canon_op_json(r['ok']) != canon_op_json(m['ok'])):
             st.disagree('project_onto_sector', case, r, m)
         try:
-            err = of.transforms.projection_error(op, list(qubits), list(sectors))
+            err = of.transforms.projection_error(op, qubits_t, sectors_t)
+            if snap_any(op) != op0:
+                st.violate('project_onto_sector / projection_error modified the operator', case, {})
             re = {'ok': float(err)}
         except (ValueError, TypeError) as e:
             re = {'error': errname(e)}
@@ -490,8 +660,15 @@ def stream_proj(ctx):
     for (n, Q, P, theta, c, s, jQ, jP), m in zip(items, ans):
         case = {'f': 'rotate_qubit_by_pauli', 'Q': jQ, 'P': jP, 'cos_sin': [str(c), str(s)], 'angle': theta}
         st.case(case)
+        import copy as _copy
+        Qt = retype_terms(rng, _copy.deepcopy(Q))
+        Pt = _copy.deepcopy(P)
+        if len(Pt.terms) == 1 and list(Pt.terms.values())[0] == 1:
+            Pt.terms[list(Pt.terms)[0]] = rng.choice([1, 1.0, numpy.float64(1.0), complex(1, 0), numpy.complex128(1)])
+        th_t = rng.choice([float, numpy.float64])(theta) if theta != 0 else rng.choice([0, 0.0, numpy.float64(0)])
+        st.count('types:angle=%s' % type(th_t).__name__)
         try:
-            out = of.transforms.rotate_qubit_by_pauli(Q, P, theta)
+            out = of.transforms.rotate_qubit_by_pauli(Qt, Pt, th_t)
             r = {'ok': enc_op('qubit', out.terms)}
         except TypeError as e:
             r = {'error': errname(e)}
@@ -551,7 +728,7 @@ def stream_freeze(ctx):
             L = rng.choice([0, 1, 2, 2, 3, 4, 4, 5])
             idx_pool = list(range(n))
             term = tuple((rng.choice(idx_pool), rng.randint(0, 1)) for _ in range(L))
-            op += of.FermionOperator(term, dyadic(rng, max_num=6, max_pow=2, complex_p=0.4))
+            op += of.FermionOperator(term, band_coeff(rng, 0.4))
         modes = list(range(n))
         rng.shuffle(modes)
         no = min(n, rng.choice([0, 1, 1, 2, 2, 3]))
@@ -569,11 +746,15 @@ def stream_freeze(ctx):
         st.count('occ=%d,unocc=%d' % (len(occ), len(unocc)))
         before = canon_op_json(enc_op('fermion', op.terms))
         try:
-            r0 = of.transforms.freeze_orbitals(op, list(occ), list(unocc) if unocc or rng.random() < 0.5 else None, prune=False)
+            occ_t, ok_ = vary_ints(rng, occ, containers=('list', 'tuple', 'ndarray'))
+            un_t, uk_ = vary_ints(rng, unocc, containers=('list', 'tuple', 'ndarray'))
+            st.count('types:occupied=%s' % ok_)
+            case['types'] = {'occupied': ok_, 'unoccupied': uk_}
+            r0 = of.transforms.freeze_orbitals(op, occ_t, un_t if len(unocc) or rng.random() < 0.5 else None, prune=False)
             j0 = enc_op('fermion', r0.terms)
             if (occ or unocc) and canon_op_json(enc_op('fermion', op.terms)) != before:
                 st.violate('freeze_orbitals changed its argument', case, {})
-            r1 = of.transforms.freeze_orbitals(op, list(occ), list(unocc), prune=True)
+            r1 = of.transforms.freeze_orbitals(op, occ_t, un_t, prune=True)
             j1 = enc_op('fermion', r1.terms)
         except Exception as e:
             st.violate('unexpected exception %s: %s' % (errname(e), e), case, {})
@@ -732,8 +913,12 @@ def stream_scbk(ctx):
         case = {'f': 'edit_hamiltonian_for_spin/remove_indices', 'A': jA, 'spin_orbital': so, 'parity': par, 'indices': idx}
         st.case(case)
         try:
-            e = edit_hamiltonian_for_spin(copy.deepcopy(op), so, par)
-            rr = remove_indices(op, tuple(idx))
+            so_t = rng.choice([so, float(so), numpy.int64(so), numpy.float64(so)])
+            par_t = rng.choice([par, float(par), numpy.float64(par)])
+            idx_t = rng.choice([tuple(idx), list(idx), tuple(float(x) for x in idx), numpy.array(idx, dtype=int)])
+            st.count('types:spin_orbital=%s,indices=%s' % (type(so_t).__name__, type(idx_t).__name__))
+            e = edit_hamiltonian_for_spin(retype_terms(rng, copy.deepcopy(op)), so_t, par_t)
+            rr = remove_indices(op, idx_t)
         except Exception as ex:
             st.violate('unexpected exception %s: %s' % (errname(ex), ex), case, {})
             continue
@@ -745,5 +930,253 @@ def stream_scbk(ctx):
     return st
 
 
+
+# ------------------------------------------------------------------ stream 5: (S) state / aliasing
+
+def stream_state(ctx):
+    of = ctx.of
+    import copy
+    from openfermion.transforms.opconversions.remove_symmetry_qubits import remove_indices
+    st = Stream('state-and-aliasing',
+                '(S) reduce_number_of_terms / taper_off_qubits (automatic and manual positions, with returned position lists), '
+                'project_onto_sector, projection_error, rotate_qubit_by_pauli, freeze_orbitals, prune_unused_indices, '
+                'remove_indices, symmetry_conserving_bravyi_kitaev are called twice around an in-place modification of '
+                'everything the first call returned (terms rescaled, lists edited): the second result must equal the first; '
+                'operators, stabilizer lists and position lists passed in must be unchanged and must not be returned; '
+                'distinct = distinct inputs')
+    rng = rng_for(ctx.seed, 'c16-state')
+    N = budget(ctx.tier, 120, 800)
+    if ctx.drift:
+        N = max(N, 200)
+    for i in range(N):
+        n = rng.choice([2, 3, 4])
+        k = rng.randint(1, min(2, n - 1))
+        stabs = rand_stabilizers(rng, n, k)
+        if stabs is not None:
+            H = rand_commuting_hamiltonian(of, rng, n, stabs)
+            S = [of.QubitOperator(pauli_term(p), rng.choice([1.0, -1.0])) for p in stabs]
+            case = {'H': enc_op('qubit', H.terms), 'stabilizers': [enc_op('qubit', x.terms) for x in S]}
+            st.case(case)
+            twice(st, 'reduce_number_of_terms', lambda h, s: of.reduce_number_of_terms(h, s, output_fixed_positions=True),
+                  [H, S], case)
+            twice(st, 'reduce_number_of_terms(maintain_length)',
+                  lambda h, s: of.reduce_number_of_terms(h, s, maintain_length=True, output_fixed_positions=True), [H, S], case)
+            r = twice(st, 'taper_off_qubits', lambda h, s: of.taper_off_qubits(h, s, output_tapered_positions=True), [H, S], case)
+            if r is not None:
+                # manual positions: the automatic ones in the order the reduction found them
+                try:
+                    _, pos = of.reduce_number_of_terms(H, S, output_fixed_positions=True)
+                    pos = list(pos)[::-1] if False else list(pos)
+                    twice(st, 'taper_off_qubits(manual)',
+                          lambda h, s, f: of.taper_off_qubits(h, s, manual_input=True, fixed_positions=f,
+                                                              output_tapered_positions=True), [H, S, pos], case)
+                    twice(st, 'reduce_number_of_terms(manual)',
+                          lambda h, s, f: of.reduce_number_of_terms(h, s, manual_input=True, fixed_positions=f,
+                                                                    output_fixed_positions=True), [H, S, pos], case)
+                except Exception as e:
+                    st.violate('manual positions: unexpected exception %s: %s' % (errname(e), e), case, {})
+        n = rng.choice([2, 3, 4])
+        Q = rand_qubit_op(of, rng, n, rng.randint(1, 5))
+        qubits = rng.sample(range(n), rng.randint(1, n))
+        sectors = [rng.randint(0, 1) for _ in qubits]
+        case = {'Q': enc_op('qubit', Q.terms), 'qubits': qubits, 'sectors': sectors}
+        st.case(case)
+        twice(st, 'project_onto_sector', of.transforms.project_onto_sector, [Q, qubits, sectors], case)
+        twice(st, 'projection_error', of.transforms.projection_error, [Q, qubits, sectors], case)
+        P = of.QubitOperator(pauli_term(rand_pauli(rng, n, 1, 0.7)))
+        twice(st, 'rotate_qubit_by_pauli', of.transforms.rotate_qubit_by_pauli, [Q, P, 0.375], case)
+        twice(st, 'remove_indices', remove_indices, [Q, (1, n)], case)
+        A = of.FermionOperator()
+        for _ in range(rng.randint(1, 4)):
+            A += of.FermionOperator(tuple((rng.randrange(n), rng.randint(0, 1)) for _ in range(rng.choice([1, 2, 2, 4]))),
+                                    band_coeff(rng, 0.3))
+        occ = rng.sample(range(n), rng.randint(1, min(2, n)))
+        unocc = [q for q in range(n) if q not in occ][:rng.randint(0, 1)]
+        casef = {'A': enc_op('fermion', A.terms), 'occupied': occ, 'unoccupied': unocc}
+        st.case(casef)
+        twice(st, 'freeze_orbitals', lambda a, o, u: of.transforms.freeze_orbitals(a, o, u), [A, occ, unocc], casef)
+        twice(st, 'freeze_orbitals(prune=False)', lambda a, o, u: of.transforms.freeze_orbitals(a, o, u, prune=False),
+              [A, occ, unocc], casef)
+        twice(st, 'prune_unused_indices', of.transforms.prune_unused_indices, [A], casef)
+        if i % 4 == 0:
+            Hf = rand_conserving_hamiltonian(of, rng, 4)
+            twice(st, 'symmetry_conserving_bravyi_kitaev', of.transforms.symmetry_conserving_bravyi_kitaev,
+                  [Hf, 4, rng.randint(1, 3)], {'H': enc_op('fermion', Hf.terms)})
+    return st
+
+
+# ------------------------------------------------------------------ stream 6: (B) sizes, large indices, small angles
+
+def relabel_q(of, op, f):
+    out = of.QubitOperator()
+    for t, c in op.terms.items():
+        out += of.QubitOperator(tuple((f(i), a) for i, a in t), c)
+    return out
+
+
+def relabel_f(of, op, f):
+    out = of.FermionOperator()
+    for t, c in op.terms.items():
+        out += of.FermionOperator(tuple((f(i), a) for i, a in t), c)
+    return out
+
+
+def jrelabel(jop, f):
+    return canon_op_json([[[[f(i), a] for i, a in t], c] for t, c in jop])
+
+
+def stream_bands(ctx):
+    of = ctx.of
+    st = Stream('sizes-large-indices-small-angles',
+                '(B) the reductions on registers of 9 and 17 qubits / modes (compared exactly with the Model) and on qubit / '
+                'mode indices >= 257: shifting every index by an offset in {257, 300, 1000} commutes with '
+                'reduce_number_of_terms, taper_off_qubits, project_onto_sector and freeze_orbitals(prune=False); '
+                'freeze_orbitals(prune=True) is invariant under any increasing relabelling; rotate_qubit_by_pauli with angles '
+                '2^-7 .. 2^-23 (1e-2 .. 1e-7) compared with the Model and the dense Spec matrix at 1e-9; distinct = distinct inputs')
+    orc = Oracle(ctx)
+    rng = rng_for(ctx.seed, 'c16-bands')
+    N = budget(ctx.tier, 100, 600)
+    if ctx.drift:
+        N = max(N, 150)
+    reqs, metas = [], []
+    for i in range(N):
+        OFF = rng.choice([257, 300, 1000])
+        big = rng.random() < 0.35
+        n = rng.choice([9, 17]) if big else rng.choice([3, 4, 5])
+        kind = rng.choice(['reduce', 'taper', 'project', 'freeze'])
+        if kind in ('reduce', 'taper'):
+            k = rng.randint(1, 3)
+            stabs = rand_stabilizers(rng, n, k)
+            if stabs is None:
+                continue
+            H = rand_commuting_hamiltonian(of, rng, n, stabs)
+            S = [of.QubitOperator(pauli_term(p), rng.choice([1.0, -1.0])) for p in stabs]
+            jH, jS = enc_op('qubit', H.terms), [enc_op('qubit', x.terms) for x in S]
+            ml = kind == 'reduce' and rng.random() < 0.4
+            if kind == 'reduce':
+                reqs.append({'op': 'c16.reduce', 'A': jH, 'stabs': jS, 'maintain': ml, 'manual': False, 'fixed': None})
+            else:
+                reqs.append({'op': 'c16.taper', 'A': jH, 'stabs': jS, 'manual': False, 'fixed': None})
+            metas.append((kind, n, OFF, (H, S, ml), {'H': jH, 'stabilizers': jS, 'maintain_length': ml}))
+        elif kind == 'project':
+            Q = rand_qubit_op(of, rng, n, rng.randint(1, 6))
+            qubits = rng.sample(range(n), rng.randint(1, min(n, 4)))
+            sectors = [rng.randint(0, 1) for _ in qubits]
+            jQ = enc_op('qubit', Q.terms)
+            reqs.append({'op': 'c16.project', 'A': jQ, 'qubits': qubits, 'sectors': sectors})
+            metas.append((kind, n, OFF, (Q, qubits, sectors), {'A': jQ, 'qubits': qubits, 'sectors': sectors}))
+        else:
+            A = of.FermionOperator()
+            for _ in range(rng.randint(1, 5)):
+                A += of.FermionOperator(tuple((rng.randrange(n), rng.randint(0, 1)) for _ in range(rng.choice([1, 2, 2, 3, 4]))),
+                                        band_coeff(rng, 0.3))
+            occ = rng.sample(range(n), rng.randint(0, 2))
+            unocc = [q for q in rng.sample(range(n), 2) if q not in occ][:rng.randint(0, 2)]
+            jA = enc_op('fermion', A.terms)
+            reqs.append({'op': 'c16.freeze', 'A': jA, 'occupied': occ, 'unoccupied': unocc, 'prune': False})
+            metas.append((kind, n, OFF, (A, occ, unocc), {'A': jA, 'occupied': occ, 'unoccupied': unocc}))
+    ans = ctx.driver.run(reqs)
+    for (kind, n, OFF, args, case), m in zip(metas, ans):
+        case = dict(case, f=kind, n=n, offset=OFF)
+        st.case(case)
+        st.count('%s:n=%d' % (kind, n))
+        sh = lambda j: j + OFF
+        try:
+            if kind in ('reduce', 'taper'):
+                H, S, ml = args
+                Hb, Sb = relabel_q(of, H, sh), [relabel_q(of, x, sh) for x in S]
+                if kind == 'reduce':
+                    r, pos = of.reduce_number_of_terms(H, list(S), maintain_length=ml, output_fixed_positions=True)
+                    rb, posb = of.reduce_number_of_terms(Hb, list(Sb), maintain_length=ml, output_fixed_positions=True)
+                else:
+                    r, pos = of.taper_off_qubits(H, list(S), output_tapered_positions=True)
+                    rb, posb = of.taper_off_qubits(Hb, list(Sb), output_tapered_positions=True)
+                jr, jb = enc_op('qubit', r.terms), enc_op('qubit', rb.terms)
+                if 'ok' not in m or canon_op_json(jr) != canon_op_json(m['ok']['op']) or [int(x) for x in pos] != m['ok']['fixed']:
+                    st.disagree(kind + ' (sizes)', case, {'op': jr, 'fixed': [int(x) for x in pos]}, m)
+                if canon_op_json(jb) != jrelabel(jr, sh) or [int(x) for x in posb] != [int(x) + OFF for x in pos]:
+                    st.violate('shifting all qubit indices by %d does not commute with %s' % (OFF, kind), case,
+                               {'shifted_result': jb, 'result': jr, 'positions': [list(map(int, posb)), list(map(int, pos))]})
+            elif kind == 'project':
+                Q, qubits, sectors = args
+                r = of.transforms.project_onto_sector(Q, list(qubits), list(sectors))
+                rb = of.transforms.project_onto_sector(relabel_q(of, Q, sh), [q + OFF for q in qubits], list(sectors))
+                jr, jb = enc_op('qubit', r.terms), enc_op('qubit', rb.terms)
+                if 'ok' not in m or canon_op_json(jr) != canon_op_json(m['ok']):
+                    st.disagree('project_onto_sector (sizes)', case, jr, m)
+                if canon_op_json(jb) != jrelabel(jr, sh):
+                    st.violate('shifting all qubit indices by %d does not commute with project_onto_sector' % OFF, case,
+                               {'shifted_result': jb, 'result': jr})
+            else:
+                A, occ, unocc = args
+                r = of.transforms.freeze_orbitals(A, list(occ), list(unocc), prune=False)
+                rb = of.transforms.freeze_orbitals(relabel_f(of, A, sh), [q + OFF for q in occ], [q + OFF for q in unocc],
+                                                   prune=False)
+                jr, jb = enc_op('fermion', r.terms), enc_op('fermion', rb.terms)
+                if canon_op_json(jr) != canon_op_json(m):
+                    st.disagree('freeze_orbitals (sizes)', case, jr, m)
+                if canon_op_json(jb) != jrelabel(jr, sh):
+                    st.violate('shifting all mode indices by %d does not commute with freeze_orbitals' % OFF, case,
+                               {'shifted_result': jb, 'result': jr})
+                stretch = lambda j: 3 * j + (OFF if j >= n // 2 else 0)
+                rp = of.transforms.freeze_orbitals(A, list(occ), list(unocc), prune=True)
+                rpb = of.transforms.freeze_orbitals(relabel_f(of, A, stretch), [stretch(q) for q in occ],
+                                                    [stretch(q) for q in unocc], prune=True)
+                if canon_op_json(enc_op('fermion', rp.terms)) != canon_op_json(enc_op('fermion', rpb.terms)):
+                    st.violate('freeze_orbitals(prune=True) is not invariant under an increasing relabelling of the modes',
+                               case, {'result': enc_op('fermion', rp.terms), 'relabelled': enc_op('fermion', rpb.terms)})
+        except Exception as e:
+            st.violate('%s: unexpected exception %s: %s' % (kind, errname(e), e), case, {})
+    # small angles
+    items, reqs = [], []
+    for i in range(N):
+        n = rng.choice([1, 2, 3])
+        kexp = rng.choice([7, 10, 14, 17, 20, 23])
+        theta = rng.choice([1, -1]) * 2.0 ** (-kexp)
+        Q = of.QubitOperator()
+        for _ in range(rng.randint(1, 4)):
+            c = dyadic(rng, max_num=6, max_pow=0 if kexp >= 20 else 2, complex_p=0.4)
+            Q += of.QubitOperator(pauli_term(rand_pauli(rng, n, 0, 0.7)), c)
+        P = of.QubitOperator(pauli_term(rand_pauli(rng, n, 1, 0.7)))
+        c2, s2 = float(numpy.cos(2 * theta)), float(numpy.sin(2 * theta))
+        th = rng.choice([float, numpy.float64])(theta)
+        jQ, jP = enc_op('qubit', Q.terms), enc_op('qubit', P.terms)
+        items.append((n, Q, P, th, jQ, jP))
+        reqs.append({'op': 'c16.rotate', 'Q': jQ, 'P': jP, 'c2': to_gq(c2), 's2': to_gq(s2)})
+    ans = ctx.driver.run(reqs)
+    for (n, Q, P, th, jQ, jP), m in zip(items, ans):
+        case = {'f': 'rotate_qubit_by_pauli', 'Q': jQ, 'P': jP, 'angle': float(th), 'angle_type': type(th).__name__}
+        st.case(case)
+        st.count('angle:2^%d' % round(math.log2(abs(float(th)))))
+        try:
+            out = of.transforms.rotate_qubit_by_pauli(Q, P, th)
+        except Exception as e:
+            st.violate('rotate_qubit_by_pauli: unexpected exception %s: %s' % (errname(e), e), case, {})
+            continue
+        jr = enc_op('qubit', out.terms)
+        st.float_comparisons += 1
+        if 'ok' not in m or not op_close(jr, m['ok']):
+            st.disagree('rotate_qubit_by_pauli (small angle, 1e-9)', case, jr, m)
+        c, s_ = float(numpy.cos(float(th))), float(numpy.sin(float(th)))
+        one = leaf([[[], [1, 1, 0, 1]]])
+        U = ['add', ['smul', to_gq(c), one], ['smul', to_gq(complex(0, s_)), leaf(jP)]]
+        Ud = ['add', ['smul', to_gq(c), one], ['smul', to_gq(complex(0, -s_)), leaf(jP)]]
+        got = {}
+
+        def mk(key, got=got, case=case):
+            def cb(a):
+                got[key] = a
+                if len(got) == 2:
+                    st.float_comparisons += 1
+                    st.count('oracle:conjugation')
+                    if numpy.max(numpy.abs(mat(got['impl']) - mat(got['spec']))) > 1e-9:
+                        st.violate('rotate_qubit_by_pauli (small angle) is not conjugation by exp(i theta P)', case, {})
+            return cb
+        orc.ask({'op': 'c16.spec_dense', 'alg': 'qubit', 'n': n, 'expr': leaf(jr)}, mk('impl'))
+        orc.ask({'op': 'c16.spec_dense', 'alg': 'qubit', 'n': n, 'expr': ['mul', ['mul', Ud, leaf(jQ)], U]}, mk('spec'))
+    orc.flush()
+    return st
+
+
 def run(ctx):
-    return [stream_taper(ctx), stream_proj(ctx), stream_freeze(ctx), stream_scbk(ctx)]
+    return [stream_taper(ctx), stream_proj(ctx), stream_freeze(ctx), stream_scbk(ctx), stream_state(ctx), stream_bands(ctx)]
